@@ -8,6 +8,9 @@ package resources
 // time-outs fire when nothing else can run.
 
 import (
+	"bytes"
+	"encoding/gob"
+
 	"github.com/DistCompiler/pgo/distsys"
 	"github.com/DistCompiler/pgo/distsys/tla"
 )
@@ -16,6 +19,7 @@ func init() {
 	verifRegister("HarnessC07_Two", HarnessC07_Two)
 	verifRegister("HarnessC07_Three", HarnessC07_Three)
 	verifRegister("HarnessC07_Indexed", HarnessC07_Indexed)
+	verifRegister("HarnessC07_GetState", HarnessC07_GetState)
 }
 
 const (
@@ -261,6 +265,78 @@ func HarnessC07_Indexed() {
 	}
 	final := distsys.VerifLocalValue(mgr.res)
 	verifAssert(final.ApplyFunction(k1).AsNumber() == x0-net && final.ApplyFunction(k2).AsNumber() == y0+net, "indexed shared variable: the final state reflects each committed transfer exactly once")
+	verifAssert(len(mgr.lockCh) == 0, "no lock is held at the end")
+	verifReach("end")
+}
+
+// ---- GetState() of a sharer that does not hold the lock, while another sharer's section is open ----
+//
+// A's first attempt writes a tentative value to the shared x and then waits for an input that never comes (the read
+// times out, the attempt is rolled back); its second attempt writes another value and commits. An observer handle
+// (a sharer outside any section) takes snapshots with GetState() at arbitrary moments: every snapshot must be a
+// COMMITTED value of x (no dirty read), and the observer must not block for ever.
+func HarnessC07_GetState() {
+	x0, a, b := verifNondetInt32("x0"), verifNondetInt32("a"), verifNondetInt32("b")
+	verifAssume(x0 >= -1000 && x0 <= 1000 && a >= 1 && a <= 100 && b >= -100 && b <= 100 && a != b)
+	var opts []LocalSharedManagerOption
+	if verifChoose("timeout", 2) == 1 {
+		opts = append(opts, WithLocalSharedResourceTimeout(0))
+	}
+	mgr := NewLocalSharedManager(tla.MakeNumber(x0), opts...)
+	never := make(chan tla.Value, 1)
+	attempt := 0
+	sections := []distsys.MPCalCriticalSection{
+		{Name: "A.s0", Body: func(iface distsys.ArchetypeInterface) error {
+			attempt++
+			hx, err := iface.RequireArchetypeResourceRef("A.x")
+			if err != nil {
+				return err
+			}
+			if attempt == 1 {
+				if err := iface.Write(hx, nil, tla.MakeNumber(x0+a)); err != nil {
+					return err
+				}
+				hin, err := iface.RequireArchetypeResourceRef("A.in")
+				if err != nil {
+					return err
+				}
+				if _, err := iface.Read(hin, nil); err != nil {
+					return err // the input never arrives: time-out, the attempt is rolled back
+				}
+			}
+			if err := iface.Write(hx, nil, tla.MakeNumber(x0+b)); err != nil {
+				return err
+			}
+			return iface.Goto("A.Done")
+		}},
+		{Name: "A.Done", Body: func(distsys.ArchetypeInterface) error { return distsys.ErrDone }},
+	}
+	arch := distsys.MPCalArchetype{Name: "A", Label: "A.s0", RequiredRefParams: []string{"A.x", "A.in"},
+		JumpTable: distsys.MakeMPCalJumpTable(sections...), ProcTable: distsys.MakeMPCalProcTable(), PreAmble: func(distsys.ArchetypeInterface) {}}
+	ctx := distsys.NewMPCalContext(tla.MakeNumber(1), arch,
+		distsys.EnsureArchetypeRefParam("x", mgr.MakeLocalShared()), distsys.EnsureArchetypeRefParam("in", NewInputChan(never)))
+	done := make(chan error, 1)
+	go func() { done <- ctx.Run() }()
+	obs := mgr.MakeLocalShared()
+	snaps := make(chan int32, 2)
+	go func() {
+		for i := 0; i < 2; i++ {
+			raw, err := obs.GetState()
+			verifAssert(err == nil, "GetState does not fail")
+			var v tla.Value
+			derr := gob.NewDecoder(bytes.NewBuffer(raw)).Decode(&v)
+			verifAssert(derr == nil, "the snapshot decodes")
+			snaps <- v.AsNumber()
+			verifYield()
+		}
+	}()
+	for i := 0; i < 2; i++ {
+		v := <-snaps
+		verifAssert(v == x0 || v == x0+b, "a snapshot taken by a sharer outside any section is a committed value (no dirty read of an open section's write)")
+	}
+	verifAssert(<-done == nil, "the sharer terminates normally")
+	verifAssert(attempt == 2, "the first attempt was rolled back, the second committed")
+	verifAssert(distsys.VerifLocalValue(mgr.res).AsNumber() == x0+b, "the committed value is the second attempt's")
 	verifAssert(len(mgr.lockCh) == 0, "no lock is held at the end")
 	verifReach("end")
 }
